@@ -69,6 +69,36 @@ Originals: the object a copy was taken from (copy.copy, range / exprange /
 curverange) is kept with its parameters; at the end of the history, after the
 copy has been re-specified / stretched / used, it must still encode as its own
 parameters say -> C19/object-reuse/original-changed-by-history-of-copy.
+
+Independence of objects ('indep' shards, run_indep; the class "envelopes built
+with DEFAULTED arguments, one of them changed IN PLACE, a second one built the
+same way before and after").  The constructor of Env and the standard
+constructors fill in documented defaults (levels 0 1 0, times 1 1, 'lin'; perc
+/ adsr / ... times, levels and curvatures).  Every object owns its breakpoints:
+what is done to the attribute lists of one envelope must never show in another
+envelope that was built from its own (equal or different) arguments.
+  recipes   Env() with any subset of times / curves / nodes / offset and levels
+            omitted or None; Env(levels=...) with times omitted or None; every
+            standard constructor with no or a few arguments (triangle, sine,
+            perc, linen, cutoff, adsr, dadsr, asr, step)
+  history   A = recipe; B0 = the same (65%) or another defaulted recipe, encoded
+            now or not; 1-3 in-place changes of A.levels / A.times / A.curves
+            (item and slice assignment, append, insert, extend, +=, pop, del,
+            sort, reverse, clear + extend), the other attributes brought to the
+            new segment count in place or by assignment, an attribute
+            re-assigned when A was encoded before (drops its cached formats);
+            B1 = recipe of B0, built afterwards
+  oracle    B0 (as it is, or after an attribute was re-assigned its own value)
+            and B1 encode (both layouts) and evaluate as the model says for
+            THEIR arguments and the documented defaults (Env.step(): as an
+            equal object did before the change) ->
+      C19/object-independence/<recipe>/<attribute>-follows-other-object
+            (<attribute>: the first of levels / times / curves that the object
+            does not read back as it was built; 'format' when all do);
+            A itself encodes as its changed lists say ->
+      C19/object-reuse/in-place-change-not-encoded/<attribute>
+An object that deviates from the model BEFORE the change of the case is not
+judged (sequential deviation / other shards), only counted.
 """
 
 import copy
@@ -566,3 +596,398 @@ def _safe_current(env):
         return current(env)
     except Exception as e:
         return f'{type(e).__name__}: {e}'
+
+
+# ---------------------------------------------------------------------------
+# independence of objects built with defaulted arguments
+
+DEFAULT_LEVELS = [0, 1, 0]      # "levels = [0, 1, 0] / times = [1, 1]": the
+DEFAULT_TIMES = [1, 1]          # triangle of the class documentation
+DEFAULTED_CTORS = ('triangle', 'sine', 'perc', 'linen', 'cutoff', 'adsr',
+                   'dadsr', 'asr')
+
+
+def gen_defaulted(rng, G):
+    """A construction that relies on defaults -> (recipe name, description,
+    build(Env), expected parameters or None).  expected: dict(levels, times,
+    curves, release_node, loop_node, offset) from the documentation."""
+    r = rng.random()
+    if r < 0.5:
+        kw, exp = {}, dict(curves='lin', release_node=None, loop_node=None,
+                           offset=0)
+        if r < 0.36:
+            name = 'Env-default-levels'
+            if rng.random() < 0.3:
+                kw['levels'] = None
+            exp['levels'] = list(DEFAULT_LEVELS)
+            t = rng.choice(['omit', 'omit', 'none', 'scalar', 'one', 'two'])
+        else:
+            name = 'Env-default-times'
+            kw['levels'] = [G.gen_level(rng, 'any')
+                            for _ in range(rng.choice([2, 3, 3, 4, 6]))]
+            exp['levels'] = list(kw['levels'])
+            t = rng.choice(['omit', 'none'])
+        if t == 'none':
+            kw['times'] = None
+        elif t == 'scalar':
+            kw['times'] = G.gen_dur(rng, True) or 0.5
+        elif t in ('one', 'two'):
+            kw['times'] = [G.gen_dur(rng, True) for _ in range(
+                1 if t == 'one' else 2)]
+        exp['times'] = copy.deepcopy(kw['times']) \
+            if kw.get('times') is not None else list(DEFAULT_TIMES)
+        if rng.random() < 0.4:
+            nseg = len(exp['levels']) - 1
+            kw['curves'] = rng.choice([
+                rng.choice(G.ANY_SIGN_NAMES), rng.choice([-4, 2.0, 0, 3.5]),
+                [G.gen_curve_item(rng, 'any')
+                 for _ in range(rng.randint(1, nseg))]])
+            exp['curves'] = copy.deepcopy(kw['curves'])
+        if rng.random() < 0.3:
+            kw['release_node'] = exp['release_node'] = rng.choice([None, 0, 1])
+            if kw['release_node'] is not None and rng.random() < 0.4:
+                kw['loop_node'] = exp['loop_node'] = 0
+        if rng.random() < 0.15:
+            kw['offset'] = exp['offset'] = rng.choice([0, 0.5, 1])
+        return (name, {'Env': kw},
+                (lambda Env: Env(**copy.deepcopy(kw))), exp)
+    if r < 0.58:
+        return 'step', {'constructor': 'step', 'kwargs': {}}, \
+            (lambda Env: Env.step()), None
+    bad = set(G.EXP_NAMES) | {'sqr', 'squared'}
+    while True:
+        name, kw, _flags = G.gen_ctor_kwargs(rng)
+        if name not in DEFAULTED_CTORS:
+            continue
+        if rng.random() < 0.5:
+            kw = {}
+        elif len(kw) > 2:
+            kw = {k: kw[k] for k in rng.sample(sorted(kw), 2)}
+        c = kw.get('curve')
+        if not (isinstance(c, str) and c in bad):
+            break
+    exp = G.ctor_expected(name, kw)
+    exp['offset'] = 0
+    return (name, {'constructor': name, 'kwargs': kw},
+            (lambda Env: getattr(Env, name)(**copy.deepcopy(kw))), exp)
+
+
+def _flat_numbers(lst):
+    return all(isinstance(x, (int, float)) for x in lst)
+
+
+def gen_inplace(rng, G, attr, lst):
+    """One in-place change of a list that holds `lst` -> (name, function that
+    applies it to a list).  The result keeps at least 2 levels / 1 time."""
+    least = 2 if attr == 'levels' else 1
+    val = (lambda: G.gen_level(rng, 'any')) if attr == 'levels' else \
+        (lambda: G.gen_dur(rng, True) or 0.25) if attr == 'times' else \
+        (lambda: rng.choice(G.ANY_SIGN_NAMES + [-4, 2.0, 0, 3]))
+    n = len(lst)
+    ops = ['setitem', 'setitem', 'slice-same', 'reverse']
+    if attr == 'levels':
+        ops += ['append', 'append', 'insert', 'extend', 'iadd', 'slice-grow',
+                'clear-extend']
+        if n > least:
+            ops += ['pop', 'del', 'slice-shrink']
+    if attr != 'curves' and _flat_numbers(lst):
+        ops.append('sort')
+    op = rng.choice(ops)
+    if op == 'setitem':
+        k, v = rng.randrange(n), val()
+        if lst[k] == v:
+            v = 0.625 if attr != 'curves' else 1.5
+        return op, lambda x: x.__setitem__(k, v)
+    if op == 'slice-same':
+        a = rng.randrange(n)
+        b = rng.randint(a + 1, n)
+        vs = [val() for _ in range(b - a)]
+        return op, lambda x: x.__setitem__(slice(a, b), vs)
+    if op == 'reverse':
+        return op, lambda x: x.reverse()
+    if op == 'sort':
+        return op, lambda x: x.sort()
+    if op == 'append':
+        v = val()
+        return op, lambda x: x.append(v)
+    if op == 'insert':
+        k, v = rng.randint(0, n), val()
+        return op, lambda x: x.insert(k, v)
+    if op in ('extend', 'iadd'):
+        vs = [val() for _ in range(rng.randint(1, 3))]
+        if op == 'extend':
+            return op, lambda x: x.extend(vs)
+        return op, lambda x: x.__iadd__(vs)
+    if op == 'slice-grow':
+        a = rng.randrange(n)
+        vs = [val() for _ in range(rng.randint(2, 3))]
+        return op, lambda x: x.__setitem__(slice(a, a + 1), vs)
+    if op == 'clear-extend':
+        vs = [val() for _ in range(rng.randint(2, 5))]
+        return op, lambda x: (x.clear(), x.extend(vs))
+    if op == 'pop':
+        return op, lambda x: x.pop()
+    if op == 'del':
+        k = rng.randrange(n)
+        return op, lambda x: x.__delitem__(k)
+    a, v = rng.randrange(n - 1), val()             # slice-shrink
+    return op, lambda x: x.__setitem__(slice(a, a + 2), [v])
+
+
+def run_indep(spec, acc):
+    from vf import model_env as M, c19_gen as G
+    from sc3.synth.envelope import Env
+
+    def arrays(p):
+        pp = {k: p[k] for k in PARAMS}
+        return (M.encode(**pp), M.encode_interpolation(
+            p['levels'], p['times'], p['curves'], p['offset']))
+
+    def formats(obj):
+        return ([list(t) for t in obj._envgen_format()],
+                [list(t) for t in obj._interpolation_format()])
+
+    def judge(obj, want, wanti, offset, rng):
+        """None or a description of the first difference between what the
+        object gives (both layouts, evaluation) and the expected arrays."""
+        try:
+            got, goti = formats(obj)
+            d = M.same_arrays(got, want)
+            if d:
+                return {'differs': 'envgen-format/' + d, 'got': got[:2],
+                        'expected': want[:2]}
+            d = M.same_arrays(goti, wanti)
+            if d:
+                return {'differs': 'interpolation-format/' + d,
+                        'got': goti[:2], 'expected': wanti[:2]}
+            if offset or len(want[0]) < 8:
+                return None
+            nch = len(want)
+            total = max(sum(arr[5::4]) for arr in want)
+            for t in (0, total * rng.choice([0.25, 0.5, 0.75]), total,
+                      total + 1):
+                v = obj._at(t)
+                vs = v if nch > 1 else [v]
+                for c in range(nch):
+                    l0, segs = M.segments(want[c])
+                    ok, where, why = M.value_ok(
+                        [l0] + [s[0] for s in segs], [s[1] for s in segs],
+                        [s[2] for s in segs], t, vs[c], False)
+                    acc.count('indep_at_checks')
+                    if not ok and not any(s[2] == 7 for s in segs):
+                        return {'differs': 'value-at/' + where, 't': t,
+                                'got': v, 'allowed': why}
+        except Exception as e:
+            return {'differs': 'raises/' + type(e).__name__,
+                    'tb': short_tb(e)}
+        return None
+
+    for i in iter_cases(spec):
+        rng = case_rng(spec['seed'], 'C19', 'indep', i)
+        name_a, desc_a, build_a, exp_a = gen_defaulted(rng, G)
+        same = rng.random() < 0.65
+        if same:
+            name_b, desc_b, build_b, exp_b = name_a, desc_a, build_a, exp_a
+        else:
+            name_b, desc_b, build_b, exp_b = gen_defaulted(rng, G)
+        with_b0 = rng.random() < 0.7
+        encode_a_first = rng.random() < 0.5
+        encode_b0_first = rng.random() < 0.5
+        touch_b0 = rng.random() < 0.5
+        log = []
+        witness = lambda: {'case': i, 'changed_object': desc_a,
+                           'other_object': desc_b, 'history': list(log)}
+        try:
+            a = build_a(Env)
+            log.append('A = build(changed_object)')
+            truth = current(a)
+            b0 = None
+            if with_b0:
+                b0 = build_b(Env)
+                log.append('B0 = build(other_object)')
+            # what B stands for: the model's arrays for its arguments and the
+            # documented defaults; Env.step(): what an equal object encodes
+            # as before anything was changed
+            if exp_b is not None:
+                want_b, wanti_b = arrays(exp_b)
+                off_b = exp_b['offset']
+            else:
+                ref_b = build_b(Env)
+                snap_b = current(ref_b)
+                want_b, wanti_b = formats(ref_b)
+                off_b = 0
+            if not consistent(truth) or len(truth['levels']) < 2:
+                raise ValueError('outside the histories')
+            pre = []
+            if encode_a_first:
+                pre.append((a, *arrays(truth), truth['offset']))
+                log.append('A encoded')
+            if b0 is not None and encode_b0_first:
+                pre.append((b0, want_b, wanti_b, off_b))
+                log.append('B0 encoded')
+            if exp_a is not None and not encode_a_first:
+                # the parameters read back are those of the documentation
+                pre.append((build_a(Env), *arrays(exp_a), exp_a['offset']))
+            if any(judge(o, w, wi, off, rng) for o, w, wi, off in pre):
+                acc.count('indep_skipped_deviation_before_change')
+                continue
+        except Exception:
+            acc.count('indep_skipped_not_constructible')
+            continue
+        acc.count('indep_histories')
+        acc.count('indep_recipe_' + name_a)
+        if not same:
+            acc.count('indep_cross_recipe')
+            acc.count('indep_other_recipe_' + name_b)
+        acc.case(h64((repr(desc_a), repr(desc_b), i)),
+                 nontrivial=with_b0 or not encode_a_first)
+
+        # --- in-place changes of A's attribute lists
+        try:
+            attrs = ['levels'] if rng.random() < 0.7 else []
+            attrs += rng.sample(['levels', 'times', 'curves'],
+                                rng.randint(0 if attrs else 1, 2))
+            changed_attrs = []
+            for attr in attrs:
+                if not isinstance(truth[attr], list) or not truth[attr]:
+                    continue
+                if attr == 'curves' and len(truth[attr]) < 1:
+                    continue
+                op, fn = gen_inplace(rng, G, attr, truth[attr])
+                fn(getattr(a, attr))
+                fn(truth[attr])
+                log.append(f'A.{attr}: {op} -> {truth[attr]!r}')
+                acc.count(f'indep_inplace_{attr}_{op}')
+                if attr not in changed_attrs:
+                    changed_attrs.append(attr)
+            if not changed_attrs:
+                v = 0.625 if truth['levels'][-1] != 0.625 else 0.375
+                a.levels[-1] = v
+                truth['levels'][-1] = v
+                log.append(f'A.levels: setitem -> {truth["levels"]!r}')
+                acc.count('indep_inplace_levels_setitem')
+                changed_attrs.append('levels')
+            # bring the other attributes to the new segment count
+            m = len(truth['levels']) - 1
+            assigned = False
+            if len(truth['times']) != m:
+                acc.count('indep_levels_count_changed')
+                new = [G.gen_dur(rng, True) or 0.5 for _ in range(m)]
+                if rng.random() < 0.4:
+                    a.times[:] = new
+                    truth['times'][:] = new
+                    log.append(f'A.times[:] = {new!r}')
+                    acc.count('indep_times_adjusted_in_place')
+                    if 'times' not in changed_attrs:
+                        changed_attrs.append('times')
+                else:
+                    a.times = list(new)
+                    truth['times'] = list(new)
+                    assigned = True
+                    log.append(f'A.times = {new!r}')
+                    acc.count('indep_times_adjusted_by_assignment')
+            if isinstance(truth['curves'], list) and \
+                    len(truth['curves']) > max(m, 1):
+                new = truth['curves'][:max(m, 1)]
+                a.curves = list(new)
+                truth['curves'] = list(new)
+                assigned = True
+                log.append(f'A.curves = {new!r}')
+            if encode_a_first and not assigned:
+                # A holds cached formats: an assignment drops them
+                k = rng.choice(['levels', 'times', 'curves', 'release_node',
+                                'loop_node', 'offset'])
+                setattr(a, k, getattr(a, k))
+                log.append(f'A.{k} = A.{k}')
+                acc.count('indep_reassigned_own_value')
+            if not encode_a_first:
+                acc.count('indep_changed_before_first_encoding')
+        except Exception as e:
+            acc.violation(
+                'C19/object-reuse/in-place-change-raises/'
+                f'{type(e).__name__}', dict(witness(), tb=short_tb(e)))
+            continue
+
+        # --- A is the envelope of its changed lists
+        key_attr = '+'.join(changed_attrs)
+        try:
+            fresh_ok = judge(
+                Env(**copy.deepcopy({k: truth[k] for k in PARAMS}),
+                    offset=truth['offset']),
+                *arrays(truth), truth['offset'], rng) is None
+        except Exception:
+            fresh_ok = False
+        if fresh_ok:
+            acc.count('indep_changed_objects_checked')
+            d = judge(a, *arrays(truth), truth['offset'], rng)
+            if d:
+                acc.violation(
+                    'C19/object-reuse/in-place-change-not-encoded/' + key_attr,
+                    dict(witness(), **d, expected_parameters=truth,
+                         read_back=_safe_current(a)))
+                continue
+        else:
+            acc.count('indep_changed_object_outside_model')
+
+        # --- the other objects are what they were built as
+        def follows(obj):
+            """The attribute list of the object that is not what the object
+            was built with ('format' when all are)."""
+            try:
+                now = current(obj)
+                if exp_b is None:
+                    ref = snap_b
+                else:
+                    ref = dict(exp_b, times=M.wrap_to(
+                        M.as_list(exp_b['times']),
+                        len(exp_b['levels']) - 1))
+                for k in ('levels', 'times', 'curves'):
+                    if now[k] != ref[k]:
+                        return k
+            except Exception:
+                pass
+            return 'format'
+
+        others = []
+        try:
+            b1 = build_b(Env)
+            log.append('B1 = build(other_object)')
+            others.append(('later', b1))
+        except Exception as e:
+            acc.violation(
+                f'C19/object-independence/{name_b}/construction-raises-'
+                f'after-change-of-other-object/{type(e).__name__}',
+                dict(witness(), tb=short_tb(e)))
+            continue
+        if b0 is not None:
+            if touch_b0:
+                k = rng.choice(['levels', 'times', 'curves', 'release_node',
+                                'loop_node', 'offset'])
+                try:
+                    setattr(b0, k, getattr(b0, k))
+                except Exception:
+                    pass
+                log.append(f'B0.{k} = B0.{k}')
+                acc.count('indep_earlier_objects_reassigned_own_value')
+            others.append(('earlier', b0))
+            if not encode_b0_first:
+                acc.count('indep_earlier_objects_first_encoded_after_change')
+        rng.shuffle(others)
+        failed = False
+        for which, obj in others:
+            acc.count(f'indep_{which}_objects_checked')
+            d = judge(obj, want_b, wanti_b, off_b, rng)
+            if d:
+                acc.violation(
+                    f'C19/object-independence/{name_b}/'
+                    f'{follows(obj)}-follows-other-object',
+                    dict(witness(), which=which + ' object', **d,
+                         read_back=_safe_current(obj),
+                         changed_object_now=_safe_current(a)))
+                failed = True
+                break
+        if failed:
+            continue
+        if acc.want_sample() and len(repr(log)) < 700:
+            acc.sample({'case': i, 'changed_object': desc_a,
+                        'other_object': desc_b, 'history': log})
